@@ -589,11 +589,21 @@ func TestProp(t *testing.T) {
 		for i := 0; i < nRand; i++ {
 			fn := fns[rng.Intn(len(fns))]
 			c := Case{Fn: fn, S: rs(40, 4), Pred: preds[rng.Intn(len(preds))]}
+			big := i%40 == 39 // inputs of hundreds to thousands of elements
+			if big {
+				c.S = rs(2500, 50)
+			}
 			switch fn {
 			case "Chunk":
 				c.N = rng.Range(1, 45)
+				if big {
+					c.N = []int{1, 2, 63, 64, 65, 255, 256, 1000, 2499, 2500, 2501, 9000}[rng.Intn(12)]
+				}
 			case "Drop":
 				c.N = rng.Range(-45, 45)
+				if big {
+					c.N = rng.Range(-2600, 2600)
+				}
 			case "GroupBy":
 				c.N = rng.Range(1, 4)
 			case "Merge":
@@ -615,7 +625,11 @@ func TestProp(t *testing.T) {
 				c.Nest, c.S = &n, nil
 			case "ReverseStr":
 				var rr []rune
-				for n := rng.Intn(12); n > 0; n-- {
+				nr := rng.Intn(12)
+				if big {
+					nr = rng.Range(30, 700)
+				}
+				for n := nr; n > 0; n-- {
 					rr = append(rr, []rune{'a', 'Z', 'é', '世', '𝄞', ' ', '\'', 0x301}[rng.Intn(8)])
 				}
 				c.Str, c.S = fmt.Sprintf("%x", string(rr)), nil
